@@ -401,6 +401,8 @@ struct Minimiser {
 // ---------------------------------------------------------------------------
 
 static std::string g_outdir = "/verif/replays";
+static std::string g_sigfile;
+static bool g_elines = false;
 
 struct Found {
     J json;
@@ -549,6 +551,7 @@ static int cmd_run(
     long runs = 0, invalid = 0, nontrivial = 0, others = 0;
     int failures = 0;
     Hash allhash;
+    std::set<std::uint64_t> all_sigs;
     std::map<std::string, long> other_keys;
     std::vector<std::string> samples;
     while (i < to && now_s() < deadline && failures < max_failures) {
@@ -583,12 +586,15 @@ static int cmd_run(
                 unsigned long long eh, sg;
                 if (sscanf(line, "R %ld %d %llx %llx %d %d", &idx, &st, &eh, &sg, &nt, &oth) == 6) {
                     finished = idx;
+                    if (nt)
+                        all_sigs.insert(sg);
                     ++runs;
                     if (st == RS_INVALID)
                         ++invalid;
                     others += oth ? 1 : 0;
                     allhash.u64(eh);
-                    printf("E %ld %016llx\n", idx, eh);
+                    if (g_elines)
+                        printf("E %ld %016llx\n", idx, eh);
                 }
             } else if (line[0] == 'T') {
                 try {
@@ -709,6 +715,12 @@ static int cmd_run(
     sum.set("samples", sm);
     printf("Z %s\n", sum.str().c_str());
     fflush(stdout);
+    if (!g_sigfile.empty()) {
+        std::string bin;
+        for (auto sgn : all_sigs)
+            bin.append(reinterpret_cast<const char*>(&sgn), 8);
+        write_file(g_sigfile, bin);
+    }
     return failures ? 1 : 0;
 }
 
@@ -795,6 +807,8 @@ int main(int argc, char** argv) {
             rc = cmd_replay(argv[2], flag(argc, argv, "--log"));
         } else if (cmd == "run") {
             g_outdir = arg(argc, argv, "--out", "/verif/replays");
+            g_sigfile = arg(argc, argv, "--sigfile", "");
+            g_elines = flag(argc, argv, "--elines");
             long from = atol(arg(argc, argv, "--from", "0"));
             long to = atol(arg(argc, argv, "--to", "1000"));
             double secs = atof(arg(argc, argv, "--secs", "30"));
